@@ -1,0 +1,151 @@
+//go:build verif
+
+// Invariant probes for the verification harness (build tag `verif` only; nothing here is called by
+// the package itself).
+
+package zset
+
+import (
+	"fmt"
+	"strings"
+)
+
+// VerifCheck walks the whole skip list and returns a description of the first structural invariant
+// that does not hold ("" = all hold):
+// level bounds, node heights, per-level forward order, spans summing to ranks at every level
+// (a link without a successor spans the rest of the list), level-0 order strictly ascending by
+// (score, member), backward links, tail, length, no links above the current level.
+func (zsl *ZSkipList) VerifCheck() string {
+	if zsl.level < 1 || zsl.level > ZSKIPLIST_MAXLEVEL {
+		return fmt.Sprintf("level %d out of [1,%d]", zsl.level, ZSKIPLIST_MAXLEVEL)
+	}
+	if len(zsl.head.level) != ZSKIPLIST_MAXLEVEL {
+		return fmt.Sprintf("head has %d levels", len(zsl.head.level))
+	}
+	// level 0: ranks, order, backward links, tail, length
+	rank := map[*ZSkipListNode]int{}
+	var prev *ZSkipListNode
+	n := 0
+	for x := zsl.head.level[0].forward; x != nil; x = x.level[0].forward {
+		n++
+		if n > zsl.length+1 {
+			return "level-0 chain is longer than length+1 (cycle?)"
+		}
+		rank[x] = n
+		if len(x.level) < 1 || len(x.level) > ZSKIPLIST_MAXLEVEL {
+			return fmt.Sprintf("node at rank %d has %d levels", n, len(x.level))
+		}
+		if len(x.level) > zsl.level {
+			return fmt.Sprintf("node at rank %d is higher (%d) than the list level %d", n, len(x.level), zsl.level)
+		}
+		if x.Ele == nil {
+			return fmt.Sprintf("node at rank %d has a nil member", n)
+		}
+		if x.backward != prev {
+			return fmt.Sprintf("backward link of the node at rank %d is wrong", n)
+		}
+		if prev != nil && !(prev.Score < x.Score || (prev.Score == x.Score && prev.Ele.CompareTo(x.Ele) < 0)) {
+			return fmt.Sprintf("nodes at ranks %d and %d are not strictly ascending by (score, member)", n-1, n)
+		}
+		prev = x
+	}
+	if n != zsl.length {
+		return fmt.Sprintf("length is %d but %d nodes are linked at level 0", zsl.length, n)
+	}
+	if zsl.tail != prev {
+		return "tail is not the last node"
+	}
+	// every level below `level`: spans sum to ranks, exactly the nodes of that height are linked
+	for i := 0; i < zsl.level; i++ {
+		pos := 0
+		x := zsl.head
+		linked := 0
+		for {
+			l := x.level[i]
+			if l.forward == nil {
+				if pos+l.span != zsl.length {
+					return fmt.Sprintf("level %d: last link at rank %d has span %d, the list has %d nodes", i, pos, l.span, zsl.length)
+				}
+				break
+			}
+			r, ok := rank[l.forward]
+			if !ok {
+				return fmt.Sprintf("level %d: link from rank %d leads to a node that is not in the level-0 chain", i, pos)
+			}
+			if len(l.forward.level) <= i {
+				return fmt.Sprintf("level %d: node at rank %d is linked above its height %d", i, r, len(l.forward.level))
+			}
+			if r <= pos {
+				return fmt.Sprintf("level %d: link from rank %d goes backwards to rank %d", i, pos, r)
+			}
+			if pos+l.span != r {
+				return fmt.Sprintf("level %d: link from rank %d has span %d but leads to rank %d", i, pos, l.span, r)
+			}
+			pos = r
+			x = l.forward
+			linked++
+			if linked > zsl.length {
+				return fmt.Sprintf("level %d: chain longer than the list (cycle?)", i)
+			}
+		}
+		want := 0
+		for y := zsl.head.level[0].forward; y != nil; y = y.level[0].forward {
+			if len(y.level) > i {
+				want++
+			}
+		}
+		if linked != want {
+			return fmt.Sprintf("level %d: %d nodes linked, %d nodes have that height", i, linked, want)
+		}
+	}
+	if zsl.level > 1 && zsl.head.level[zsl.level-1].forward == nil {
+		return fmt.Sprintf("top level %d is empty", zsl.level)
+	}
+	for i := zsl.level; i < ZSKIPLIST_MAXLEVEL; i++ {
+		if zsl.head.level[i].forward != nil {
+			return fmt.Sprintf("head is linked at level %d above the list level %d", i, zsl.level)
+		}
+	}
+	return ""
+}
+
+// VerifShape renders heights and spans: "level=L len=N | h:span,span,.. (head) | score/h:span,.. | ...".
+// Members are not printed (the harness knows them from the level-0 walk).
+func (zsl *ZSkipList) VerifShape() string {
+	var sb strings.Builder
+	fmt.Fprintf(&sb, "level=%d len=%d |", zsl.level, zsl.length)
+	for i := 0; i < zsl.level; i++ {
+		fmt.Fprintf(&sb, " %d", zsl.head.level[i].span)
+	}
+	for x := zsl.head.level[0].forward; x != nil; x = x.level[0].forward {
+		fmt.Fprintf(&sb, " | %d/%d:", x.Score, len(x.level))
+		for i := range x.level {
+			fmt.Fprintf(&sb, " %d", x.level[i].span)
+		}
+	}
+	return sb.String()
+}
+
+// VerifCheck checks the skip list invariants and that the member->score table describes exactly the
+// nodes of the list ("" = all hold).
+func (s *SortedSet) VerifCheck() string {
+	if p := s.zsl.VerifCheck(); p != "" {
+		return "zskiplist: " + p
+	}
+	if len(s.dict) != s.zsl.length {
+		return fmt.Sprintf("dict has %d members, the list has %d nodes", len(s.dict), s.zsl.length)
+	}
+	for x := s.zsl.head.level[0].forward; x != nil; x = x.level[0].forward {
+		sc, ok := s.dict[x.Ele]
+		if !ok {
+			return fmt.Sprintf("member %v (score %d) is in the list but not in dict", x.Ele, x.Score)
+		}
+		if sc != x.Score {
+			return fmt.Sprintf("member %v has score %d in the list and %d in dict", x.Ele, x.Score, sc)
+		}
+	}
+	return ""
+}
+
+// VerifList gives the harness the skip list under a sorted set (to probe it after every call).
+func (s *SortedSet) VerifList() *ZSkipList { return s.zsl }
